@@ -184,6 +184,7 @@ def menu(M, seen):
         add({"op": "modify", "name": mname, "form": "callable"})
         add({"op": "modify", "name": mname, "form": "wrong"})
         add({"op": "modify", "name": mname, "form": "wrongcol"})
+        add({"op": "modify", "name": mname, "form": "wrongset"})
         if n >= 1:
             add({"op": "modify", "name": mname, "form": "scalar"})
             add({"op": "modify", "name": mname, "form": "scalar0"})
@@ -226,6 +227,8 @@ def menu(M, seen):
         if k >= 1:
             add({"op": "setitem", "name": nm, "form": "wrong"})
             add({"op": "setitem", "name": nm, "form": "wrongcol"})
+            add({"op": "setitem", "name": nm, "form": "wrongset"})
+            add({"op": "setitem", "name": nm, "form": "wrongkeys"})
             if n >= 1:
                 add({"op": "setitem", "name": nm, "form": "empty"})
     if k >= 1:
@@ -355,6 +358,13 @@ def value_of(form, n, M):
     if form == "wrong":
         m = n + 2
         return list(range(m)), list(range(m))
+    if form == "wrongset":
+        # a set / a dict view of the wrong length is a collection of that length, not a scalar to broadcast (seeded C01-r12-1)
+        m = n + 2
+        return set(range(m)), list(range(m))
+    if form == "wrongkeys":
+        m = n + 2
+        return dict.fromkeys(range(m)).keys(), list(range(m))
     if form == "wrongcol":
         # a column of the wrong length that IS a DataFrameColumn: taken out of another (longer) frame, after arithmetic
         m = n + 2
